@@ -196,6 +196,7 @@ int main(int argc, char **argv) {
       if (!c.o.expert) {
         // Encoder reused after another geometry (with Reset), and buffer that already holds bytes.
         Encoder e;
+        other.o.explicit_q.clear();  // the other case's per-attribute boxes (ExpertEncoder cases) must not be applied by type
         vf::ConfigureBasic(&e, other.g, other.o);
         EncoderBuffer junk;
         if (other.g.is_mesh) e.EncodeMeshToBuffer(*other.mesh, &junk); else e.EncodePointCloudToBuffer(*other.pc, &junk);
